@@ -39,7 +39,7 @@ std::string describe_deadlock()
 }
 } // namespace
 
-extern "C" HarnessInfo harness_info() { return {"c10_bq", "C10", 20}; }
+extern "C" HarnessInfo harness_info() { return {"c10_bq", "C10", 10}; }
 
 extern "C" void harness_run()
 {
